@@ -2,7 +2,7 @@
 # tools/rebase_seeded.sh <patch.diff> <demo_test.go> <out.diff> : re-base a seeded patch onto /repo HEAD in the scratch worktree /tmp/sb/C01
 # (git apply --3way; stops with CONFLICT when hunks need a hand), then re-verify: builds, suite green, demo fails.
 export GOFLAGS=-mod=mod GOPROXY=off GOSUMDB=off GOTOOLCHAIN=local
-W=/tmp/sb/C01; H=$(git -C /repo rev-parse HEAD)
+W=/tmp/sb/RB; H=$(git -C /repo rev-parse HEAD)
 cd $W || exit 2
 git checkout -q -f --detach $H; git clean -fdq
 if ! git apply --3way "$1" >/tmp/ev/rebase.log 2>&1; then
